@@ -8,7 +8,9 @@ from corankco.dataset import Dataset
 from corankco.ranking import Ranking
 
 POOLS = [[0, 8, 16, 24, 32, 1], [1, 2, 3, 4, 5, 6], ["a", "b", "c", "d", "e", "f"], ["a b", "ab", "c", "d", "e e", "ee"],
-         [64, 128, 192, 3, 11, 19]]
+         [64, 128, 192, 3, 11, 19],
+         # distinct integers with EQUAL hashes in CPython: hash(-1) == hash(-2), hash(n) == hash(n mod (2^61 - 1))
+         [-1, -2, 0, 2 ** 61 - 1, 1, 2 ** 61], [-2, -1, 2 ** 61 - 1, 0, 2 ** 61 + 1, 2]]
 
 
 def ordered_set(items):
@@ -41,7 +43,7 @@ class Eq(Suite):
                 A[0] = [[names[0]]]
             B = [[list(b) for b in r] for r in A]
             kind = rng.choice(["same", "permuted", "reinserted", "duplicated", "moved", "multiplicity", "other", "bucket_order",
-                               "resplit", "resplit"])
+                               "resplit", "resplit", "swapped_names"])
             if kind == "permuted":
                 rng.shuffle(B)
             elif kind == "reinserted":
@@ -83,6 +85,11 @@ class Eq(Suite):
                 A = [a] * (k + 1) + [b] * 1 + [r for r in distinct[2:]]
                 B = [a] * 1 + [b] * (k + 1) + [r for r in distinct[2:]]
                 B = [[list(x) for x in r] for r in B]
+                rng.shuffle(B)
+            elif kind == "swapped_names":
+                # the same rankings with two names exchanged everywhere (the first two of the pool: equal hashes in the colliding pools)
+                x, y = pool[0], pool[1]
+                B = [[[y if e == x else x if e == y else e for e in bk] for bk in r] for r in B]
                 rng.shuffle(B)
             elif kind == "other":
                 B = [gen.random_ranking(rng, names, 1.0, 0.5) for _ in range(m)]
